@@ -78,3 +78,10 @@ Qed.
 
 Lemma C13_created_stays_proof : forall ops, Spec_exist (combine ops (outs init ops)).
 Proof. intros. apply ok_exist_sound. apply model_ok_exist. Qed.
+
+(* a load can be repeated: same answer, same state (no cache or counter is disturbed by reading) *)
+Lemma C13_load_repeatable_proof : forall c o, is_load o = true ->
+  step (fst (step c o)) o = step c o /\ (forall ops, outs (fst (step c o)) ops = outs c ops).
+Proof.
+  intros c o H. rewrite (load_pure c o H). split; [reflexivity | intros; reflexivity].
+Qed.
